@@ -23,6 +23,10 @@ RULE = ("For each response kind (document of several copy blocks, menu, error pa
         "nothing escapes the connection handler; some log record carries client address, protocol class and the "
         "injected error's class; no record names any other exception class (FileNotFound allowed for the error-page "
         "kind); the set of open file descriptors after the request (after gc.collect()) equals the set before. "
+        "Four enumerated 'stalled client' cases run a real server (both socketserver classes, socket timeout 2 s, log to a "
+        "captured stream): a client asks for an 8 MB document and stops reading without closing; within 20 s the failure must "
+        "be logged with the client's address, the handler thread / child must be gone, the document closed and the server "
+        "still answering. "
         "Non-trivial: failure index strictly inside the response (0 < k < n); distinct = (kind, form, error, k, size).")
 ASSUMPTIONS = [
     "a dead connection is modelled as a client file object whose k-th and all later write()/flush() calls raise the "
@@ -124,6 +128,10 @@ def enumerate_cases(tier, seed):
             for how in ("close", "reset"):
                 for after in (0, 70000):
                     yield {"mode": "realfd", "kind": kind, "form": form, "how": how, "after": after}
+    # a real server with a socket timeout and a client that stops reading a large document without closing the connection
+    for st_ in ("ThreadingTCPServer", "ForkingTCPServer"):
+        for form in ("gopher", "http"):
+            yield {"mode": "stalled", "servertype": st_, "form": form}
     # a protocol list without a catch-all and a request nobody claims: whatever the server answers then (today: nothing)
     for form in ("gopher", "http", "gophers"):
         for err in ERRORS:
@@ -278,9 +286,103 @@ def _check_realfd(case, ctx):
         world.rmtree(base)
 
 
+def _check_stalled(case, ctx):
+    """A real server (socketserver classes, the configured socket timeout of 2 s) and a client that asks for a large
+    document and then stops reading while keeping the connection: the send times out.  The failure must be logged with
+    the client's address, the handler must end (no thread / child left) and the document must be closed."""
+    import configparser
+    import time
+    from pgv import live
+    base, root = world.build([["big.bin", "f", "0123456789abcdef" * 64 * 8000], ["small.txt", "f", "ok\n"]])  # 8 MB
+    srv = None
+    cli = None
+    try:
+        conf = live.write_conf(os.path.join(base, "s.conf"), root, "shipped", case["servertype"], cachetime=0, timeout=2)
+        cp = configparser.ConfigParser()
+        cp.read(conf)
+        cp.set("logger", "logmethod", "file")
+        with open(conf, "w") as f:
+            cp.write(f)
+        srv = live.Server(conf, capture_log=True)
+        base_threads = srv.threads()
+        cli = live.connect(srv.port, 20)
+        port = cli.getsockname()[1]
+        cli.sendall(clients.encode(case["form"], b"/big.bin"))
+        ctx.nontriv(("stalled", case["servertype"], case["form"]))
+        ctx.label("stalled-client:" + case["servertype"], "form:" + case["form"])
+        ctx.sample(case, cls="stalled")
+        ctx.evaluations += 1
+
+        def holds_document():
+            pids = [srv.pid]
+            for d in os.listdir("/proc"):
+                if d.isdigit():
+                    try:
+                        with open("/proc/%s/stat" % d) as f:
+                            st_ = f.read()
+                        if int(st_[st_.rfind(")") + 2:].split()[1]) == srv.pid:
+                            pids.append(int(d))
+                    except (OSError, ValueError, IndexError):
+                        pass
+            for p_ in pids:
+                try:
+                    for fd in os.listdir("/proc/%d/fd" % p_):
+                        try:
+                            if os.readlink("/proc/%d/fd/%s" % (p_, fd)).endswith("/big.bin"):
+                                return True
+                        except OSError:
+                            pass
+                except OSError:
+                    pass
+            return False
+        deadline = time.time() + 20
+        rec = []
+        while time.time() < deadline:
+            rec = [l for l in srv.logs if "EXCEPTION" in l]
+            livec, _z = srv.children()
+            th = srv.threads()
+            if rec and not holds_document() and livec == 0 and (th is None or base_threads is None or th <= base_threads):
+                break
+            time.sleep(0.25)
+        fails = []
+        tag = "%s:%s" % (case["servertype"], clients.FORMS[case["form"]][1])
+        if not rec:
+            fails.append(Fail("stalled-client:not-logged:%s" % tag,
+                              "a client asked for an 8 MB document over %s and stopped reading; 20 s later (socket timeout 2 s) no log "
+                              "record names the failure: %r" % (case["form"], srv.logs[-3:])))
+        elif not [l for l in rec if l.startswith("127.0.0.1 [")]:
+            fails.append(Fail("stalled-client:log-lacks-context:%s" % tag, "the record lacks the client address: %r" % rec[:2]))
+        if holds_document():
+            fails.append(Fail("stalled-client:document-left-open:%s" % tag,
+                              "20 s after the client stopped reading (socket timeout 2 s) the server still holds the document open"))
+        livec, _z = srv.children()
+        th = srv.threads()
+        if livec or (th is not None and base_threads is not None and th > base_threads):
+            fails.append(Fail("stalled-client:handler-never-ends:%s" % tag,
+                              "20 s after the client stopped reading (socket timeout 2 s) its handler is still there: %d child processes, "
+                              "%s threads (baseline %s)" % (livec, th, base_threads)))
+        try:
+            if live.request(srv.port, b"/small.txt\r\n", timeout=8) != b"ok\n":
+                fails.append(Fail("stalled-client:server-impaired:%s" % tag, "after the stalled client the server answers wrongly"))
+        except Exception as e:  # noqa
+            fails.append(Fail("stalled-client:server-impaired:%s" % tag, "after the stalled client the server does not answer: %r" % (e,)))
+        return fails
+    finally:
+        if cli is not None:
+            try:
+                cli.close()
+            except OSError:
+                pass
+        if srv is not None:
+            srv.stop()
+        world.rmtree(base)
+
+
 def check_case(case, ctx):
     if case.get("mode") == "realfd":
         return _check_realfd(case, ctx)
+    if case.get("mode") == "stalled":
+        return _check_stalled(case, ctx)
     kind, form, errname = case["kind"], case["form"], case["err"]
     tls, fam = clients.FORMS[form]
     req = _request(kind, form)
